@@ -147,7 +147,7 @@ func init() {
 		// ---- C03
 		mutant{Name: "signed-range-check-reverted", Prop: "C03", File: "interp/typecheck.go", Old: "\t\t\ti, ok := constant.Int64Val(x)\n\t\t\tif !ok {\n\t\t\t\treturn false\n\t\t\t}\n\t\t\t// A signed integer of n bits holds values in [-2^(n-1), 2^(n-1)-1].\n\t\t\ts := uint(bitlen[t.Kind()] - 1)\n\t\t\treturn i >= -1<<s && i <= 1<<s-1\n", New: "\t\t\tif _, ok := constant.Int64Val(x); !ok {\n\t\t\t\treturn false\n\t\t\t}\n", Rule: "R03.4", Key: "representableConst/signed-bound"},
 		mutant{Name: "bitlen-int32-wrong", Prop: "C03", File: "interp/typecheck.go", Old: "\treflect.Int32:   32,\n", New: "\treflect.Int32:   64,\n", Rule: "R03.3", Key: "bitlen/Int32"},
-		mutant{Name: "bitlen-uintptr-missing", Prop: "C03", File: "interp/typecheck.go", Old: "\treflect.Uintptr: 64,\n", New: "", Rule: "R03.3", Key: "bitlen/Uintptr"},
+		mutant{Name: "bitlen-uintptr-missing", Prop: "C03", File: "interp/typecheck.go", Old: "\treflect.Uintptr: bits.UintSize,\n", New: "", Rule: "R03.3", Key: "bitlen/Uintptr"},
 		mutant{Name: "float32-const-via-float64", Prop: "C03", File: "interp/typecheck.go", Old: "\t\tf, _ := constant.Float32Val(constant.ToFloat(c))\n\t\tv = reflect.ValueOf(f)\n", New: "\t\tf, _ := constant.Float64Val(constant.ToFloat(c))\n\t\tv = reflect.ValueOf(float32(f))\n", Rule: "R03.2", Key: "typecheck.convertConst/constant-accessors"},
 		mutant{Name: "iota-reset-only-in-gta", Prop: "C03", File: "interp/cfg.go", Old: "\t\t\t\t\tif childPos(n) == len(n.anc.child)-1 {\n\t\t\t\t\t\tsc.iota = 0\n\t\t\t\t\t} else {\n\t\t\t\t\t\tsc.iota++\n\t\t\t\t\t}\n", New: "\t\t\t\t\tsc.iota++\n", Rule: "R03.5", Key: "Interpreter.cfg/iota"},
 		mutant{Name: "xorConst-folds-or", Prop: "C03", File: "interp/op.go", Old: "constant.BinaryOp(constant.ToInt(vConstantValue(v0)), token.XOR, constant.ToInt(vConstantValue(v1)))", New: "constant.BinaryOp(constant.ToInt(vConstantValue(v0)), token.OR, constant.ToInt(vConstantValue(v1)))", Rule: "R03.1", Key: "aXor/xorConst"},
@@ -198,5 +198,11 @@ func init() {
 		mutant{Name: "deferred-calls-under-frame-lock", Prop: "C08", File: "interp/run.go", Old: "\t\tdeferred := f.deferred\n\t\tf.mutex.Unlock()\n", New: "\t\tdeferred := f.deferred\n", More: [][2]string{{"\t\tfor _, val := range deferred {\n\t\t\tf.callDeferred(val)\n\t\t}\n\n\t\tf.mutex.Lock()\n", "\t\tfor _, val := range deferred {\n\t\t\tval[0].Call(val[1:])\n\t\t}\n\n"}}, Rule: "R08.3", Key: "reentrant"},
 		mutant{Name: "deferred-calls-not-isolated", Prop: "C06", File: "interp/run.go", Old: "\t\t\tf.callDeferred(val)\n", New: "\t\t\tval[0].Call(val[1:])\n", Rule: "R06.7", Key: "runCfg/deferred-calls-isolated"},
 		mutant{Name: "benign-range-over-field", Prop: "C06", File: "interp/run.go", Old: "\t\tfor _, val := range deferred {\n\t\t\tf.callDeferred(val)", New: "\t\tfor _, val := range f.deferred {\n\t\t\tf.callDeferred(val)", More: [][2]string{{"\t\tdeferred := f.deferred\n", ""}}, Benign: true},
+	)
+}
+
+func init() {
+	addMutants(
+		mutant{Name: "int-width-literal-64", Prop: "C03", File: "interp/typecheck.go", Old: "\treflect.Int:     bits.UintSize,\n", New: "\treflect.Int:     64,\n", Rule: "R03.3", Key: "bitlen/Int/platform-dependent"},
 	)
 }
